@@ -190,6 +190,8 @@ def check_meta(case, ctx):
                 t = p.parse(w)
             except UnexpectedInput:
                 continue        # acceptance is decided by C01/C02
+            except Exception as e:
+                raise Violation('parse with propagate_positions raised %s' % type(e).__name__, grammar=gtext, text=w, error=str(e)[:200], **extra)
             nt = norm_meta(t, named)
             if nt not in trees:
                 same_shape = [x for x in trees if strip_spans(x) == strip_spans(nt)]
